@@ -129,7 +129,8 @@ def reply_text(rng, kind):
         return "AGAIN " + text_of(rng)
     if kind == "MORE":
         return "MORE " + text_of(rng)
-    return rng.choice(["FOO", "ok", "OKAY x", "no thanks", "more x", "Again x", "NOPE", "O", "OKx y"])
+    # neither a verdict nor a challenge: the bare verbs (no blank, no text), words that begin like one, other case
+    return rng.choice(["FOO", "ok", "OKAY x", "no thanks", "more x", "Again x", "NOPE", "O", "OKx y", "NO", "AGAIN", "MORE", "NOTICE hello", "MOREOVER x", "AGAINST y", "N"])
 
 
 class View(object):
